@@ -44,6 +44,8 @@ type fakeRGB struct {
 	frames  int
 	conns   int
 	closedC int
+	// slow: delay before the answer to "how many controllers" — a server that is still detecting its devices
+	slow time.Duration
 }
 
 func orgbString(s string) []byte {
@@ -121,6 +123,9 @@ func (f *fakeRGB) serve(c net.Conn) {
 		}
 		switch cmd {
 		case 0:
+			if f.slow > 0 {
+				time.Sleep(f.slow)
+			}
 			reply([]byte{1, 0, 0, 0})
 		case 1:
 			reply(f.deviceBlob())
@@ -181,6 +186,7 @@ type ledDev struct {
 	leds    []string
 	ncolors int
 	paniced bool
+	slowSrv time.Duration
 }
 
 var sysMu sync.Mutex
@@ -200,6 +206,7 @@ func (l *ledDev) start(waitFrame time.Duration) string {
 		return "nolisten"
 	}
 	l.srv = srv
+	srv.slow = l.slowSrv
 	r := l.r
 	r.midiOut = make(chan midi.Event, 1<<14)
 	r.midiIn = make(chan midi.Event)
@@ -255,8 +262,24 @@ func deviceGoroutines() int {
 	n := runtime.Stack(buf, true)
 	c := 0
 	for _, g := range strings.Split(string(buf[:n]), "\n\n") {
-		if strings.Contains(g, "device.(*Device).handleOpenrgb") || strings.Contains(g, "device.(*Device).handleInputEvents") ||
-			strings.Contains(g, "device.(*Device).ProcessEvents") {
+		// a goroutine that is executing (or was started by) code of package device proper: a frame — or the `created by`
+		// line — whose source file lies in the package directory and is not a test file (the harness itself lives in
+		// *_test.go files of the same package)
+		own := false
+		for _, line := range strings.Split(g, "\n") {
+			line = strings.TrimSpace(line)
+			if !strings.Contains(line, "/internal/pkg/midi/device/") || !strings.Contains(line, ".go:") {
+				continue
+			}
+			file := line[:strings.Index(line, ".go:")+3]
+			if strings.Contains(file, "/internal/pkg/midi/device/config/") {
+				continue
+			}
+			if !strings.HasSuffix(file, "_test.go") {
+				own = true
+			}
+		}
+		if own {
 			c++
 		}
 	}
@@ -411,7 +434,10 @@ func (r *ledRunner) line(toks []string) (string, bool) {
 		return fmt.Sprintf("%s %d leftover=%d | %s | %s", st, slow, deviceGoroutines(), strings.Join(parts, " "), f), true
 	case "life.run":
 		seed, _ := strconv.ParseInt(toks[1], 10, 64)
-		return lifeRun(seed, atoi(toks[2]), &r.nextHid), true
+		return lifeRun(seed, atoi(toks[2]), &r.nextHid, false), true
+	case "life.alone":
+		seed, _ := strconv.ParseInt(toks[1], 10, 64)
+		return lifeRun(seed, atoi(toks[2]), &r.nextHid, true), true
 	}
 	return r.v.line(toks)
 }
@@ -432,6 +458,11 @@ func lifeCfg(rng *rand.Rand) (config.Config, []int, []int) {
 		code := 16 + i // KEY_Q..
 		km.Midi[""][evdev.EvCode(code)] = config.Key{Note: byte(48 + rng.Intn(24)), ChannelOffset: byte(rng.Intn(3))}
 		keys = append(keys, code)
+	}
+	if rng.Intn(2) == 0 {
+		// an axis mapped to a controller; the deadzone differs from device to device (same mapping name "Piano" everywhere)
+		km.Analog[""] = map[evdev.EvCode]config.Analog{0: {MappingType: config.AnalogCC, CC: byte(20 + rng.Intn(8))}}
+		km.DefaultDeadzone[""] = []float64{0, 0.1, 0.3, 0.5}[rng.Intn(4)]
 	}
 	cfg.KeyMappings = []config.KeyMapping{km}
 	acts := []config.Action{config.OctaveUp, config.OctaveDown, config.SemitoneUp, config.SemitoneDown, config.ChannelUp,
@@ -454,12 +485,20 @@ type lifeScript struct {
 }
 
 func runScript(s lifeScript, hid int, concurrent bool, withLeds bool) (out []string, returned bool, paniced bool, dt time.Duration) {
-	v := &vrunner{cfg: s.cfg, axes: map[string]map[evdev.EvCode]evdev.AbsInfo{}}
+	v := &vrunner{cfg: s.cfg, axes: map[string]map[evdev.EvCode]evdev.AbsInfo{"": {0: {Minimum: -128, Maximum: 127}}}}
 	l := &ledDev{r: v, evname: fmt.Sprintf("event%d", 100+hid), hidraw: hid, devName: "fake", leds: lifeLeds, ncolors: len(lifeLeds)}
 	if !withLeds {
 		l.hidraw = 0 // no sysfs node for hidraw0 is ever created: the LED loop gives up looking for its controller
+	} else if hid%4 == 1 {
+		// a server that takes longer than one retry interval (250 ms) to answer during the connection phase
+		l.slowSrv = 400 * time.Millisecond
 	}
-	l.start(0)
+	if l.slowSrv > 0 {
+		// … and the device is used only once its LED loop is running (the connection phase, with its slow attempt, is over)
+		l.start(4 * time.Second)
+	} else {
+		l.start(0)
+	}
 	if concurrent && withLeds {
 		// let the LED loop get going for some of the devices, not for others
 		time.Sleep(time.Duration(hid%3) * 300 * time.Millisecond)
@@ -481,7 +520,13 @@ func runScript(s lifeScript, hid int, concurrent bool, withLeds bool) (out []str
 		}
 	}()
 	for _, e := range s.events {
-		if !l.send(mkKey("", e[0], e[1])) {
+		ie := mkKey("", e[0], e[1])
+		if e[0] < 0 {
+			// an axis position (ABS_X)
+			ie = &input.InputEvent{Source: input.Handler{Name: "", DeviceInfo: input.VerifDeviceInfo("Dummy", "", "")},
+				Event: evdev.InputEvent{Type: evdev.EV_ABS, Code: 0, Value: int32(e[1])}}
+		}
+		if !l.send(ie) {
 			break
 		}
 		if concurrent && e[2] > 0 {
@@ -502,7 +547,7 @@ func runScript(s lifeScript, hid int, concurrent bool, withLeds bool) (out []str
 // traffic, disconnect at a random moment, possibly with keys held); afterwards every script is run again alone.
 // Reports: every ProcessEvents returned, how long the slowest took, goroutines left over, and whether each
 // device's MIDI output under concurrency equals its output when run alone (the disconnect clean-up is compared as a multiset).
-func lifeRun(seed int64, n int, nextHid *int) string {
+func lifeRun(seed int64, n int, nextHid *int, aloneOnly bool) string {
 	rng := rand.New(rand.NewSource(seed))
 	var scripts []lifeScript
 	for i := 0; i < n; i++ {
@@ -510,7 +555,12 @@ func lifeRun(seed int64, n int, nextHid *int) string {
 		var s lifeScript
 		s.cfg = cfg
 		down := map[int]bool{}
+		hasAxis := len(cfg.KeyMappings[0].Analog[""]) > 0
 		for j := 0; j < 10+rng.Intn(60); j++ {
+			if hasAxis && rng.Intn(4) == 0 {
+				s.events = append(s.events, [3]int{-1, []int{-128, 127, 0, 10, 20, 40, 64, -30, rng.Intn(256) - 128}[rng.Intn(9)], rng.Intn(3) * rng.Intn(2000)})
+				continue
+			}
 			var code int
 			if rng.Intn(4) == 0 {
 				code = akeys[rng.Intn(len(akeys))]
@@ -532,6 +582,19 @@ func lifeRun(seed int64, n int, nextHid *int) string {
 			s.midiin = append(s.midiin, []byte{st | byte(rng.Intn(16)), byte(40 + rng.Intn(40)), byte(rng.Intn(2) * 64)})
 		}
 		scripts = append(scripts, s)
+	}
+	if aloneOnly {
+		// every script alone, one after the other, last first — run in another process than the concurrent run, so that
+		// state shared through the package (and not through the Device) cannot make both runs wrong in the same way
+		var parts []string
+		outs := make([]string, n)
+		for i := n - 1; i >= 0; i-- {
+			*nextHid++
+			o, _, _, _ := runScript(scripts[i], *nextHid, false, false)
+			outs[i] = strings.Join(o, ",")
+		}
+		parts = append(parts, outs...)
+		return "alone=" + strings.Join(parts, ";")
 	}
 	type res struct {
 		out      []string
@@ -557,6 +620,11 @@ func lifeRun(seed int64, n int, nextHid *int) string {
 	for t := 0; left != 0 && t < 100; t++ {
 		time.Sleep(10 * time.Millisecond)
 		left = deviceGoroutines()
+	}
+	if os.Getenv("VERIF_DUMP") != "" {
+		buf := make([]byte, 1<<21)
+		n := runtime.Stack(buf, true)
+		fmt.Fprintf(os.Stderr, "DUMP leftover=%d\n%s\n", left, buf[:n])
 	}
 	allRet, anyPanic, slowest := true, false, time.Duration(0)
 	for _, c := range conc {
@@ -585,7 +653,12 @@ func lifeRun(seed int64, n int, nextHid *int) string {
 			break
 		}
 	}
-	return fmt.Sprintf("returned=%v panic=%v slowest_ms=%d leftover=%d output=%s", allRet, anyPanic, slowest.Milliseconds(), left, cross)
+	var couts []string
+	for _, c := range conc {
+		couts = append(couts, strings.Join(c.out, ","))
+	}
+	return fmt.Sprintf("returned=%v panic=%v slowest_ms=%d leftover=%d conc=%s output=%s", allRet, anyPanic, slowest.Milliseconds(), left,
+		strings.Join(couts, ";"), cross)
 }
 
 func TestVerifLed(t *testing.T) {
